@@ -1,5 +1,5 @@
 (* C14 -- shared definitions of the kernel evaluations (Proofs/C14Ex_*.v) *)
-From Coq Require Import List NArith ZArith.
+From Coq Require Import List NArith ZArith Bool.
 From HV Require Import Base.Res Base.Str Base.C14Base Gen.ComplianceTables Model.Compliance
      Proofs.ComplianceProofs Gen.C14_Env.
 Import ListNotations.
@@ -8,7 +8,7 @@ Import ListNotations.
 Definition bundled_env (loadable : list (str * rschema)) : env :=
   mkEnv known_versions id_ranges plurals loadable.
 
-(* the code as it now is (both repairs): no error-severity issue, and nothing at all with warnings off *)
+(* the code as it is in /repo (fixed_all: fix commits 55e2b09, 5844fee): no error-severity issue, and nothing at all with warnings off *)
 Definition no_error (E : env) (S : rschema) : Prop :=
   errors_of (check_compliance fixed_all E true S) = Ok [] /\ check_compliance fixed_all E false S = Ok [].
 
@@ -44,3 +44,92 @@ Lemma bundled_id_ranges :
   /\ dict_get [115; 99; 111; 114; 101]%N id_ranges = Some (40000, 59999)%Z      (* score *)
   /\ parse_int (remove_prefix [72;69;68;95;48;48;48;48;48;48;48]%N hed_prefix) = Some 0%Z.
 Proof. repeat split; reflexivity. Qed.
+
+(* ------------------------------------------------------------------ going THROUGH the seeded-fault theorems:
+   boolean witnesses that collect every premise of a theorem for a concrete raw schema (evaluated in the kernel
+   by the example files), and their soundness: the theorem then yields the conclusion. *)
+
+Definition with_entry (E : env) (S : rschema) (sec : section) (name : str) (k : lschema -> lentry -> bool) : bool :=
+  match evaluate E S, load E S with
+  | Ok (_, true), Ok L => match find_entry L sec name with Some e => k L e | None => false end
+  | _, _ => false
+  end.
+
+Lemma with_entry_sound E S sec name k :
+  with_entry E S sec name k = true ->
+  exists L e, load E S = Ok L /\ checkable E L /\ In e (section_values L sec) /\ k L e = true.
+Proof.
+  unfold with_entry. destruct (evaluate E S) as [[errs b]|] eqn:He; [|discriminate].
+  destruct b; [|discriminate]. destruct (load E S) as [L|] eqn:HL; [|discriminate].
+  destruct (find_entry L sec name) as [e|] eqn:Hf; [|discriminate]. intros Hk.
+  destruct (evaluate_sound _ _ _ He) as (_ & L' & HL' & Hc). rewrite HL in HL'. inversion HL'; subst L'.
+  exists L, e. repeat split; try assumption. eapply find_entry_in; exact Hf.
+Qed.
+
+(* foreign inLibrary name *)
+Definition in_library_premises (lib : str) (L : lschema) (e : lentry) : bool :=
+  match dict_get HedKey_InLibrary (le_attrs e) with
+  | Some (VStr s) => str_eqb s lib && negb (mem_str s (split_comma (l_library L)))
+                     && negb (skip_attribute fixed_all e HedKey_InLibrary)
+  | _ => false
+  end.
+
+Lemma in_library_through_theorem E S sec name lib :
+  with_entry E S sec name (in_library_premises lib) = true ->
+  exists L issues, load E S = Ok L /\ check_loaded fixed_all E true L = Ok issues
+                   /\ In (kind_code K_SCHEMA_IN_LIBRARY_INVALID) (codes issues).
+Proof.
+  intros W. destruct (with_entry_sound _ _ _ _ _ W) as (L & e & HL & Hc & He & Hk).
+  unfold in_library_premises in Hk. destruct (dict_get HedKey_InLibrary (le_attrs e)) as [[|s]|] eqn:Hd; try discriminate.
+  apply andb_true_iff in Hk as [Hk H3]. apply andb_true_iff in Hk as [_ H2].
+  apply negb_true_iff in H2. apply negb_true_iff in H3. apply mem_str_false_iff in H2.
+  destruct (seeded_in_library_full E L sec e s Hc He Hd H3 H2) as (issues & Hi & Hin).
+  exists L, issues. tauto.
+Qed.
+
+(* undeclared attribute *)
+Definition undeclared_premises (a : str) (L : lschema) (e : lentry) : bool := mem_str a (le_unknown e).
+
+Lemma undeclared_through_theorem E S sec name a :
+  with_entry E S sec name (undeclared_premises a) = true ->
+  exists L issues, load E S = Ok L /\ check_loaded fixed_all E true L = Ok issues
+                   /\ In (kind_code K_SCHEMA_ATTRIBUTE_INVALID) (codes (filter is_error issues)).
+Proof.
+  intros W. destruct (with_entry_sound _ _ _ _ _ W) as (L & e & HL & Hc & He & Hk).
+  apply mem_str_true_iff in Hk.
+  destruct (seeded_undeclared_full E L sec e a Hc He Hk) as (issues & Hi & Hin).
+  exists L, issues. tauto.
+Qed.
+
+(* hedId out of the range of the entry's own library *)
+Definition hed_id_premises (E : env) (L : lschema) (e : lentry) : bool :=
+  l_is83 L && negb (skip_attribute fixed_all e HedKey_HedID) &&
+  match dict_get HedKey_HedID (le_attrs e), dict_get HedKey_InLibrary (le_attrs e) with
+  | Some (VStr s), Some (VStr k) =>
+      match parse_int (remove_prefix s hed_prefix), dict_get k (env_ranges E) with
+      | Some nid, Some (lo, hi) =>
+          mem_str k (map snd (zip_str (split_comma (l_version L)) (split_comma (l_library L))))
+          && ((nid <? lo)%Z || (hi <? nid)%Z)
+      | _, _ => false
+      end
+  | _, _ => false
+  end.
+
+Lemma hed_id_through_theorem E S sec name :
+  with_entry E S sec name (hed_id_premises E) = true ->
+  exists L issues, load E S = Ok L /\ check_loaded fixed_all E true L = Ok issues
+                   /\ In (kind_code K_SCHEMA_HED_ID_INVALID) (codes issues).
+Proof.
+  intros W. destruct (with_entry_sound _ _ _ _ _ W) as (L & e & HL & Hc & He & Hk).
+  unfold hed_id_premises in Hk. apply andb_true_iff in Hk as [Hk H3]. apply andb_true_iff in Hk as [H1 H2].
+  apply negb_true_iff in H2.
+  destruct (dict_get HedKey_HedID (le_attrs e)) as [[|s]|] eqn:Hd; try discriminate.
+  destruct (dict_get HedKey_InLibrary (le_attrs e)) as [[|k]|] eqn:Hlib; try discriminate.
+  destruct (parse_int (remove_prefix s hed_prefix)) as [nid|] eqn:Hp; try discriminate.
+  destruct (dict_get k (env_ranges E)) as [[lo hi]|] eqn:Hr; try discriminate.
+  apply andb_true_iff in H3 as [H4 H5]. apply mem_str_true_iff in H4.
+  assert (Hout : (nid < lo \/ hi < nid)%Z).
+  { apply orb_true_iff in H5. destruct H5 as [H5|H5]; apply Z.ltb_lt in H5; tauto. }
+  destruct (seeded_hed_id_range_full E L sec e s nid k lo hi Hc H1 He Hd H2 Hp Hlib H4 Hr Hout) as (issues & Hi & Hin).
+  exists L, issues. tauto.
+Qed.
